@@ -56,7 +56,7 @@ LONG = {"n": "nasm", "t": "strict", "s": "smart", "p": "print", "P": "printfile"
 RVARS = ("", "", "=3", "12", "rand", "rand+r", "r+rand", "rand+r=11")     # spellings of "run it": -r / --return, with LEN attached (-r=3 / --return=3, -r12), --rand (implies -r)
 
 
-def argv_of(f, paths, rlast=False, rvar="", order="canon"):
+def argv_of(f, paths, rlast=False, rvar="", order="canon", zeros=False):
     """mode flags keep their relative order (the later one wins, as documented); the output flags are independent of each other and
     of the mode flags: `order` puts them in front ("outfirst") or reverses them ("rev")"""
     spell = f.get("spell", "short")
@@ -95,10 +95,12 @@ def argv_of(f, paths, rlast=False, rvar="", order="canon"):
         mode.append("--%s-sib-no-base" % f["nobase"])
     if f["p"]:
         outs.append(flag("p"))
+    # (numbers are decimal however many zeros lead them: -c 016 is 16)
+    num = (lambda v: "0" + str(v)) if zeros else str
     if f["c"]:
-        outs.append(flag("c", str(f["c"])))
+        outs.append(flag("c", num(f["c"])))
     if f["b"]:
-        outs.append(flag("b", str(f["b"])))
+        outs.append(flag("b", num(f["b"])))
     if f["r"] and not rlast:
         outs.append(rflag())
     if f["out"] == "P":
@@ -118,13 +120,13 @@ def argv_of(f, paths, rlast=False, rvar="", order="canon"):
 
 # how FILE is named and where -r stands are no dimensions of the flag model (spec/AsmCli.tla judges what the flags mean): the driver
 # rotates through them so that every flag vector meets some of them, and records them in the replay file
-NAMINGS = ("abs", "rel", "digit", "dotrel")
+NAMINGS = ("abs", "rel", "digit", "dotrel", "symlink")
 ORDERS = ("canon", "canon", "outfirst", "rev", "filefirst")
 
 
 def file_arg(naming, progfiles, prog):
     base = os.path.basename(progfiles[prog])
-    return {"abs": progfiles[prog], "rel": base, "digit": "64" + base, "dotrel": "./" + base}[naming]
+    return {"abs": progfiles[prog], "rel": base, "digit": "64" + base, "dotrel": "./" + base, "symlink": "ln-" + base}[naming]
 
 
 ROW = re.compile(r"^((?:[0-9a-f]{2} )+)\|?$")
@@ -170,6 +172,7 @@ def run(prop, tier, replay=None):
             p = os.path.join(d, name + ".asm")
             open(p, "w", newline="").write(text)
             open(os.path.join(d, "64" + name + ".asm"), "w", newline="").write(text)      # the same program under a name that starts with digits
+            os.symlink(name + ".asm", os.path.join(d, "ln-" + name + ".asm"))              # ... and through a symbolic link
             progfiles[name] = p
         # cases
         if replay:
@@ -233,12 +236,14 @@ def run(prop, tier, replay=None):
             idx, (f, opt, prog) = idx_case
             paths = {"P": os.path.join(d, "out%d.bin" % idx), "o": "obj%d" % idx, "olong": "obj%d" % idx + "x" * 150, "bad": os.path.join(d, "no-such-dir", "x.bin")}
             # -o gets a name relative to cwd = d: asmline refuses -o names that contain a '.', which a directory name may
-            naming, rlast = NAMINGS[idx % 4], (idx // 4) % 2 == 1
+            naming, rlast = NAMINGS[idx % len(NAMINGS)], (idx // 4) % 2 == 1
             rvar = RVARS[(idx // 8) % len(RVARS)]
             order = ORDERS[(idx // 3) % len(ORDERS)]
+            zeros = (idx // 7) % 3 == 1
             if replay:
                 naming, rlast, rvar, order = rp.get("naming", "abs"), rp.get("rlast", False), rp.get("rvar", ""), rp.get("order", "canon")
-            argv = [exe] + argv_of(f, paths, rlast, rvar, order)
+                zeros = rp.get("zeros", False)
+            argv = [exe] + argv_of(f, paths, rlast, rvar, order, zeros)
             text = PROGRAMS[prog][0]
             pre_target = paths["P"] if f["out"] == "P" else (os.path.join(d, paths[f["out"]] + ".bin") if f["out"] in ("o", "olong") else None)
             if pre_target and f.get("pre", "none") != "none":
@@ -262,7 +267,7 @@ def run(prop, tier, replay=None):
                 os.unlink(target)
             k = (opt["mov"], opt["swap"], opt["nobase"], f["c"], f["b"], prog)
             return {"id": "cli%d" % idx, "f": f, "prog": prog, "exit": exitc, "rows": rows, "count": count, "value": value, "file": fb,
-                    "junk": junk[:3], "lib": libres[refs[k].sid], "opt": opt, "argv": argv[1:], "naming": naming, "rlast": rlast, "rvar": rvar, "order": order}
+                    "junk": junk[:3], "lib": libres[refs[k].sid], "opt": opt, "argv": argv[1:], "naming": naming, "rlast": rlast, "rvar": rvar, "order": order, "zeros": zeros}
         with cf.ThreadPoolExecutor(max_workers=A.NCPU) as ex:
             events = list(ex.map(one, enumerate(cases)))
     finally:
@@ -321,7 +326,7 @@ def run(prop, tier, replay=None):
         seen[reason] += 1
         if seen[reason] > 3:
             continue
-        path = A.write_replay(prop, "%s-%s" % (e["id"], reason), {"property": prop, "reason": reason, "f": e["f"], "opt": e["opt"], "prog": e["prog"], "text": PROGRAMS[e["prog"]][0], "naming": e["naming"], "rlast": e["rlast"], "rvar": e["rvar"], "order": e["order"], "observed": e})
+        path = A.write_replay(prop, "%s-%s" % (e["id"], reason), {"property": prop, "reason": reason, "f": e["f"], "opt": e["opt"], "prog": e["prog"], "text": PROGRAMS[e["prog"]][0], "naming": e["naming"], "rlast": e["rlast"], "rvar": e["rvar"], "order": e["order"], "zeros": e["zeros"], "observed": e})
         print("VIOLATION property=%s replay=%s  (%s: asmline %s  program %s from %s)" % (prop, path, reason, " ".join(e["argv"]), e["prog"], e["f"]["src"]))
     for r, n in seen.items():
         if n > 3:
